@@ -337,6 +337,148 @@ def check_typed_points(case):
     return Outcome(_nontrivial(spec), _key(spec), _labels(spec), evals=len(pts))
 
 
+# ---- 7. integer-typed physical points ----------------------------------------------------
+
+
+def check_integer_points(case):
+    """Physical points given with an integer dtype (int lists, integer arrays, Coordinate built
+    from ints) convert like the same points given as floats."""
+    spec, img, ref = _setup(case)
+    cs = img.coordinatesystem
+    dim = spec["dim"]
+    rng = np.random.default_rng(case["tseed"])
+    lo = np.floor(np.minimum(ref.coordinate([-HALO] * dim), ref.coordinate([n + HALO for n in spec["shape"]])))
+    hi = np.ceil(np.maximum(ref.coordinate([-HALO] * dim), ref.coordinate([n + HALO for n in spec["shape"]])))
+    if np.any(np.abs(lo) > 2**40) or np.any(np.abs(hi) > 2**40):
+        return Outcome(False, _key(spec), _labels(spec), status="skipped")
+    pts = np.stack([rng.integers(int(l), int(h) + 1, size=24) for l, h in zip(lo, hi)], axis=1)
+    vf = ref.voxel_float(pts.astype(float))
+    want = np.floor(vf).astype(int)
+    frac = vf - np.floor(vf)
+    margin = np.empty_like(vf)
+    sc = _scale(ref, want)
+    for c, (m, s) in enumerate(AXES[dim]):
+        margin[:, m] = np.maximum(1e-6, 64 * EPS * sc[:, c] / ref.h[m])
+    ok = np.all((frac > margin) & (frac < 1 - margin), axis=1)
+    if not ok.any():
+        return Outcome(False, _key(spec), _labels(spec) + ("no-interior-integer-point",), status="skipped")
+    t = _tags(spec)
+    got_f = np.asarray(cs.voxel(pts[ok].astype(float)))
+    if np.any(got_f != want[ok]):
+        raise Violation("roundtrip", "float form of integer-valued points differs from the reference", t)
+    forms = {
+        "int-array": cs.voxel(pts[ok].astype(np.int64)),
+        "CoordinateArray(int)": cs.voxel(darsia.CoordinateArray(pts[ok].astype(int))),
+        "make_coordinate(int).to_voxel": darsia.make_coordinate(pts[ok].astype(int)).to_voxel(cs),
+    }
+    if np.all(np.abs(pts[ok]) < 2**31 - 1):
+        forms["int32-array"] = cs.voxel(pts[ok].astype(np.int32))
+    for name, val in forms.items():
+        if np.any(np.asarray(val) != want[ok]):
+            i = int(np.argwhere(np.any(np.asarray(val) != want[ok], axis=1))[0][0])
+            raise Violation("integer-typed-point", f"{name}: point {pts[ok][i].tolist()} -> "
+                            f"{np.asarray(val)[i].tolist()}, as floats -> {want[ok][i].tolist()}", t)
+    i = int(np.flatnonzero(ok)[0])
+    for name, form in (("int-list", [int(x) for x in pts[i]]), ("Coordinate(int)", darsia.Coordinate(pts[i].astype(int)))):
+        g = np.asarray(cs.voxel(form))
+        if np.any(g != want[i]):
+            raise Violation("integer-typed-point", f"{name}: point {pts[i].tolist()} -> {g.tolist()}, "
+                            f"as floats -> {want[i].tolist()}", t)
+    nonint_origin = bool(np.any(ref.origin != np.round(ref.origin)))
+    return Outcome(nonint_origin, _key(spec), _labels(spec) + ("origin-fractional" if nonint_origin else "origin-integer",),
+                   evals=int(ok.sum()))
+
+
+# ---- 8. the maps follow the image's *current* metadata ------------------------------------
+
+
+def check_metadata_update(case):
+    """Sequences on one image object: use the coordinate system, change origin / dimensions in place
+    through the documented in-place API, use it again - every conversion follows the new metadata."""
+    spec, img, ref = _setup(case)
+    dim = spec["dim"]
+    t = _tags(spec)
+    rng = np.random.default_rng(case["tseed"])
+    steps = []
+    cur_origin, cur_dims = (None if spec["origin"] is None else list(spec["origin"])), list(spec["dimensions"])
+    _ = img.coordinatesystem.coordinate([0] * dim)  # first use (a cache would be filled here)
+    _ = img.opposite_corner
+    for k in range(int(rng.integers(1, 4))):
+        op = ["reset_origin", "update_origin", "assign_origin", "update_dimensions"][int(rng.integers(0, 4))]
+        if op == "reset_origin":
+            img.reset_origin()
+            cur_origin = None
+        elif op in ("update_origin", "assign_origin"):
+            cur_origin = [float(rng.integers(-40, 41)) / 4.0 for _ in range(dim)]
+            if op == "update_origin":
+                img.update_metadata(origin=darsia.Coordinate(np.array(cur_origin)))
+            else:
+                img.origin = darsia.Coordinate(np.array(cur_origin))
+        else:
+            cur_dims = [d * float(2.0 ** int(rng.integers(-2, 3))) for d in cur_dims]
+            img.update_metadata(dimensions=list(cur_dims))
+            if cur_origin is None:
+                img.reset_origin()  # default origin depends on the dimensions
+        steps.append(op)
+        r = RefCS(dim, spec["shape"], cur_dims, cur_origin)
+        cs = img.coordinatesystem
+        pts = _halo(spec, 60, case["tseed"] + k)
+        got = np.asarray(cs.coordinate(pts), dtype=float)
+        want = r.coordinate(pts)
+        if np.any(np.abs(got - want) > 8 * EPS * _scale(r, pts)):
+            raise Violation("stale-after-update", f"after {steps}: coordinate() does not follow the current "
+                            f"origin {np.asarray(img.origin).tolist()} / dimensions {img.dimensions}", t)
+        if not np.array_equal(np.asarray(cs.coordinate([0] * dim), float), np.asarray(img.origin, float)):
+            raise Violation("stale-after-update", f"after {steps}: voxel 0 does not map to image.origin", t)
+        x, ok, _t = _interior_points(spec, r, pts, case["tseed"] + k, stress=False)
+        gv = np.asarray(cs.voxel(x))
+        if np.any(np.any(gv != pts, axis=1) & ok):
+            raise Violation("stale-after-update", f"after {steps}: voxel() does not follow the current metadata", t)
+        typed = darsia.CoordinateArray(x[ok]).to_voxel(img.coordinatesystem) if ok.any() else None
+        if typed is not None and np.any(np.asarray(typed) != pts[ok]):
+            raise Violation("stale-after-update", f"after {steps}: typed conversion stale", t)
+    return Outcome(True, _key(spec, steps), _labels(spec) + tuple(sorted(set(steps))), evals=len(steps))
+
+
+# ---- 9. selections from typed point arrays --------------------------------------------------
+
+
+def check_typed_selection(case):
+    """Rows selected from a typed point array (int, index array, boolean mask) keep type and value,
+    and convert like the same rows of the whole batch."""
+    spec, img, ref = _setup(case)
+    cs = img.coordinatesystem
+    pts = _halo(spec, 40, case["tseed"])
+    rng = np.random.default_rng(case["tseed"])
+    t = _tags(spec)
+    idx = np.sort(rng.choice(len(pts), size=min(len(pts), 7), replace=False))
+    mask = np.zeros(len(pts), dtype=bool)
+    mask[idx] = True
+    x, ok, _ = _interior_points(spec, ref, pts, case["tseed"], stress=False)
+    arrays = {
+        "VoxelArray": (darsia.VoxelArray(pts), darsia.VoxelArray, darsia.Voxel, pts),
+        "VoxelCenterArray": (darsia.VoxelArray(pts).to_voxel_center(), darsia.VoxelCenterArray, darsia.VoxelCenter, pts + 0.5),
+        "CoordinateArray": (darsia.CoordinateArray(x), darsia.CoordinateArray, darsia.Coordinate, x),
+    }
+    for name, (arr, acls, pcls, vals) in arrays.items():
+        whole_c = np.asarray(arr.to_coordinate(cs), dtype=float)
+        for kname, key in (("index-array", idx), ("boolean-mask", mask)):
+            sel = arr[key]
+            if type(sel) is not acls:
+                raise Violation(f"selection-type:{name}", f"{name}[{kname}] is a {type(sel).__name__}", t)
+            if not np.array_equal(np.asarray(sel), vals[idx]):
+                raise Violation(f"selection-value:{name}", f"{name}[{kname}] changed the values", t)
+            sc = np.asarray(sel.to_coordinate(cs), dtype=float)
+            if not np.array_equal(sc, whole_c[idx]):
+                raise Violation(f"selection-conversion:{name}", f"{name}[{kname}].to_coordinate differs from "
+                                f"the same rows of the batch conversion", t)
+        one = arr[int(idx[0])]
+        if type(one) is not pcls or not np.array_equal(np.asarray(one), vals[idx[0]]):
+            raise Violation(f"selection-type:{name}", f"{name}[int] is {type(one).__name__} "
+                            f"{np.asarray(one).tolist()}", t)
+    return Outcome(_nontrivial(spec), _key(spec), _labels(spec), evals=9)
+
+
 _RULE = ("Hypothesis draws the image geometry (space_dim 1-3, extents incl. single-voxel axes, "
          "power-of-two / generic / unit voxel sizes in 1e-4..1e4, default or user origin up to 1e6 "
          "voxel sizes away, scalar / vector / series payload); every voxel plus a halo of width 3 "
@@ -361,5 +503,8 @@ PROP = Prop(
         Sub("interior_point_roundtrip", check_interior_roundtrip, gen=gen, n=_N, shards=_SH),
         Sub("batch_equals_single", check_batch_single, gen=gen, n={"quick": 320, "thorough": 8000}, shards=_SH),
         Sub("typed_points", check_typed_points, gen=gen, n={"quick": 320, "thorough": 8000}, shards=_SH),
+        Sub("integer_typed_points", check_integer_points, gen=gen, n=_N, shards=_SH),
+        Sub("follows_current_metadata", check_metadata_update, gen=gen, n=_N, shards=_SH),
+        Sub("typed_array_selection", check_typed_selection, gen=gen, n={"quick": 320, "thorough": 8000}, shards=_SH),
     ],
 )
